@@ -684,8 +684,8 @@ P("C18", BASE, _OLD_DG, '        if key.startswith("__") and key.endswith("__"):
 B("C18", BASE, _OLD_DG, '        if key == "__deepcopy__":\n            return super().__getattribute__(key)', "R-C18-getattr")
 B("C18", BASE, _OLD_DG, '        if key.startswith("___"):\n            return super().__getattribute__(key)', "R-C18-getattr")
 # a deletion through a view rebuilds the view
-B("C19", BASE, "                ~base_recs.isin(self.recordings).all(axis=1)\n            ]\n            self._update_view()", "                ~base_recs.isin(self.recordings).all(axis=1)\n            ]", "R-C19-refresh")
-B("C19", BASE, "                    base_exts_inds[state_name] = base_exts_inds[state_name][keep_inds]\n                self._update_view()", "                    base_exts_inds[state_name] = base_exts_inds[state_name][keep_inds]", "R-C19-refresh")
+B("C19", BASE, "                ~base_recs.isin(self.recordings).all(axis=1)\n            ]\n            self._update_view()", "                ~base_recs.isin(self.recordings).all(axis=1)\n            ]", "R-C19-rebuild")
+B("C19", BASE, "                    base_exts_inds[state_name] = base_exts_inds[state_name][keep_inds]\n                self._update_view()", "                    base_exts_inds[state_name] = base_exts_inds[state_name][keep_inds]", "R-C19-rebuild")
 P("C19", BASE, "                    base_exts_inds[state_name] = base_exts_inds[state_name][keep_inds]\n                self._update_view()\n            else:\n                pass  # does not have to be deleted if not in externals", "                    base_exts_inds[state_name] = base_exts_inds[state_name][keep_inds]\n        self._update_view()")
 # augmented assignment on a whole array
 for _p, _r in (("C01", "R-C01-assembly"), ("C02", "R-C02-rowsum")):
